@@ -43,7 +43,7 @@ func init() {
 		ID:        "C16",
 		Level:     "exploration",
 		Technique: "bounded-exhaustive enumeration of integration sets (shape x sharing pattern x declaration order x column order x identity-column supply x pre-existing table x one/two sources) run through the real ValidateFix -> Schema -> Migrate (or the print-schema DDL) -> loadTasks -> Converge against the fake Postgres; oracle = behaviour of the generated schema on the real emitted rows (no collision among different rows, collision on re-insert) plus catalogue inspection",
-		Rule: "sets of 1-3 integrations over 5 shapes (log scalar, log array, log all-indexed, tx, trace): all ordered tuples x all sharing patterns (set partitions) x 2 routes (Migrate / config.DDL); single integrations and shared pairs x every column order (all permutations up to 4 columns, rotations beyond) x identity columns missing / all / every prefix / every single one / every single one renamed; pre-existing tables (user columns only; migrated for a smaller older declaration); two sources; " +
+		Rule: "sets of 1-3 integrations over 5 shapes (log scalar, log array, log all-indexed, tx, trace; singles and pairs also over 2 more: log whose selected un-indexed data are the components of a tuple[] / tuple[2] input): all ordered tuples x all sharing patterns (set partitions) x 2 routes (Migrate / config.DDL); single integrations and shared pairs x every column order (all permutations up to 4 columns, rotations beyond) x identity columns missing / all / every prefix / every single one / every single one renamed; pre-existing tables (user columns only; migrated for a smaller older declaration); two sources; " +
 			"negative cases: every selected input / block field / notification column without table column; every PostgreSQL reserved word (both reserved categories) as column name, table name, unique entry and index entry. Chain: 2 blocks x 2 transactions x 2 matching logs per event x arrays of length 3 x 2 trace actions. Non-trivial = the configuration was accepted and at least one row was emitted, or a negative/reserved case was judged; distinct = distinct job tuple.",
 		Assumptions: []string{
 			"fake Postgres (h/simpg) enforces unique indexes (NULLs never conflict) and column existence as PostgreSQL does; it does not know reserved words, so quoting is judged on the statement text against a list written from the PostgreSQL documentation (appendix C)",
@@ -82,13 +82,15 @@ func partitions(n int) [][]int {
 	return out
 }
 
-func tuples(n int) [][]string {
+func tuples(n int) [][]string { return tuplesOver(n, c16Shapes) }
+
+func tuplesOver(n int, shapes []string) [][]string {
 	if n == 0 {
 		return [][]string{{}}
 	}
 	var out [][]string
-	for _, t := range tuples(n - 1) {
-		for _, s := range c16Shapes {
+	for _, t := range tuplesOver(n-1, shapes) {
+		for _, s := range shapes {
 			out = append(out, append(append([]string{}, t...), s))
 		}
 	}
@@ -146,7 +148,11 @@ func c16Jobs(thorough bool) []c16Job {
 	routes := []string{"migrate", "ddl"}
 	// A. integration sets x sharing patterns x routes
 	for n := 1; n <= 3; n++ {
-		for _, tp := range tuples(n) {
+		over := c16AllShapes // singles and pairs: also the tuple-component shapes
+		if n == 3 {
+			over = c16Shapes
+		}
+		for _, tp := range tuplesOver(n, over) {
 			for _, part := range partitions(n) {
 				for _, r := range routes {
 					jobs = append(jobs, c16Job{Kind: "set", Shapes: tp, Tables: part, Route: r})
@@ -155,7 +161,7 @@ func c16Jobs(thorough bool) []c16Job {
 		}
 	}
 	// B. column orders x identity variants (single integrations; and pairs sharing a table, first integration varied)
-	for _, s := range c16Shapes {
+	for _, s := range c16AllShapes {
 		for _, iv := range identVariants(s) {
 			n := len(c16DeclWithIdent(s, "ig1", "t0", nil, iv).Columns())
 			for o := range arrangements(n) {
@@ -206,7 +212,11 @@ func c16Jobs(thorough bool) []c16Job {
 		maxTwo = 3
 	}
 	for n := 1; n <= maxTwo; n++ {
-		for _, tp := range tuples(n) {
+		over := c16Shapes
+		if n == 1 {
+			over = c16AllShapes
+		}
+		for _, tp := range tuplesOver(n, over) {
 			for _, part := range partitions(n) {
 				for _, r := range routes {
 					jobs = append(jobs, c16Job{Kind: "set", Shapes: tp, Tables: part, Route: r, TwoSrc: true})
@@ -215,10 +225,15 @@ func c16Jobs(thorough bool) []c16Job {
 		}
 	}
 	// E. negative cases
-	for _, s := range c16Shapes {
+	for _, s := range c16AllShapes {
 		d := c16Decl(s, "ig1", "t0", nil)
 		for _, in := range d.Inputs {
-			jobs = append(jobs, c16Job{Kind: "negative", Shapes: []string{s}, Tables: []int{0}, Neg: "input:" + in.Column})
+			if in.Column != "" {
+				jobs = append(jobs, c16Job{Kind: "negative", Shapes: []string{s}, Tables: []int{0}, Neg: "input:" + in.Column})
+			}
+		}
+		for _, c := range d.ExtraCols { // columns of selected tuple components
+			jobs = append(jobs, c16Job{Kind: "negative", Shapes: []string{s}, Tables: []int{0}, Neg: "input:" + c[0]})
 		}
 		for _, f := range d.Fields {
 			jobs = append(jobs, c16Job{Kind: "negative", Shapes: []string{s}, Tables: []int{0}, Neg: "field:" + f.Column})
@@ -306,6 +321,13 @@ func c16Build(j c16Job) (*c16Built, error) {
 		}
 		b.decls = append(b.decls, d)
 		ig := d.Integration()
+		if _, ok := c16TupleDims(d); ok {
+			items := ig["event"].(map[string]any)["inputs"].([]any)[1].(map[string]any)
+			items["components"] = []any{
+				map[string]any{"name": "token", "type": "address", "column": "token"},
+				map[string]any{"name": "amount", "type": "uint256", "column": "amount"},
+			}
+		}
 		tbl := ig["table"].(map[string]any)
 		cols := tbl["columns"].([]any)
 		if i == 0 && j.Order > 0 {
@@ -653,8 +675,8 @@ func c16Exec(j c16Job) (res c16Res) {
 			}
 			i := declOf[t.IG]
 			d := b.decls[i]
-			want := d.Expect(chain, t.Src, chainID[t.Src], 1, 2, nil)
-			if len(want) == 0 {
+			nwant, wcols := c16Expected(d, j.Shapes[i], chain, t.Src, chainID[t.Src])
+			if nwant == 0 {
 				w.HarnessErr = "declaration " + d.Name + " emits no row on the chain"
 				return
 			}
@@ -666,15 +688,15 @@ func c16Exec(j c16Job) (res c16Res) {
 					continue
 				}
 				n++
-				for col := range want[0] {
+				for _, col := range wcols {
 					if r.Vals[col] == nil {
 						nullCols = append(nullCols, col)
 					}
 				}
 			}
 			res.rows += n
-			if n != len(want) {
-				res.vio("row-count", c16KeyCtx(j, b, i, route)+":row-count", "%s: %d rows stored, %d emitted by the declaration\nconfiguration: %s", t.Key(), n, len(want), b.confJSON)
+			if n != nwant {
+				res.vio("row-count", c16KeyCtx(j, b, i, route)+":row-count", "%s: %d rows stored, %d emitted by the declaration\nconfiguration: %s", t.Key(), n, nwant, b.confJSON)
 				failed[t.Key()] = true
 			} else if len(nullCols) > 0 {
 				sort.Strings(nullCols)
@@ -865,7 +887,7 @@ func c16Report(c *fw.Ctx, j c16Job, r c16Res) {
 func c16Run(c *fw.Ctx) {
 	jobs := c16Jobs(c.Thorough())
 	c.Bound("jobs", len(jobs))
-	c.Bound("shapes", len(c16Shapes))
+	c.Bound("shapes", len(c16AllShapes))
 	c.Bound("max_integrations", 3)
 	c.Bound("reserved_words", len(c16Reserved)+len(c16TypeFuncReserved))
 	for _, j := range jobs {
